@@ -273,6 +273,8 @@ class Loader:
         self.cache.pop(spec, None)
 
     def fn(self, spec):
+        if spec in self.stubs:  # a contract stub replaces the callee wherever it is resolved (incl. super() and methods)
+            return self.stubs[spec]
         if spec in self.cache:
             return self.cache[spec]
         mod, qual = spec.split(":")
